@@ -26,7 +26,7 @@ import threading
 import time
 
 VERIF = os.path.dirname(os.path.dirname(os.path.abspath(__file__)))
-WORK = os.path.join(VERIF, '.work')
+WORK = os.environ.get('VERIF_WORK') or os.path.join(VERIF, '.work')
 REPO = os.environ.get('VERIF_REPO', '/repo')
 KANI_HOME = os.path.expanduser('~/.kani/kani-0.68.0')
 KANI_LIB_C = os.path.join(KANI_HOME, 'library/kani/kani_lib.c')
@@ -38,7 +38,8 @@ CBMC_BASE = ['--no-malloc-may-fail', '--no-undefined-shift-check', '--no-signed-
 
 # crates that hold harnesses: name -> (manifest dir, package, needs guard cfg)
 CRATES = {
-    'ext': dict(dir=os.path.join(VERIF, 'harness', 'ext'), package='verif-ext', guard=False),
+    # VERIF_EXT_DIR: a copy of harness/ext whose path dependencies point at another checkout (bin/test_seeded)
+    'ext': dict(dir=os.environ.get('VERIF_EXT_DIR') or os.path.join(VERIF, 'harness', 'ext'), package='verif-ext', guard=False),
     'vm': dict(dir=os.path.join(REPO, 'fuel-vm'), package='fuel-vm', guard=True, features='test-helpers'),
     'crypto': dict(dir=os.path.join(REPO, 'fuel-crypto'), package='fuel-crypto', guard=True),
 }
@@ -62,7 +63,7 @@ class BuildError(Exception):
 
 
 def write_stamp(crate):
-    d = os.path.join(VERIF, 'harness', 'ext', 'src') if crate == 'ext' else os.path.join(VERIF, 'harness', 'incrate')
+    d = os.path.join(CRATES['ext']['dir'], 'src') if crate == 'ext' else os.path.join(VERIF, 'harness', 'incrate')
     with open(os.path.join(d, 'build_stamp.rs'), 'w') as f:
         f.write('// rewritten before every build (forces recompilation of the harness crate)\n'
                 'pub const VERIF_BUILD_STAMP: u128 = %d;\n' % time.time_ns())
@@ -88,7 +89,8 @@ def build(crate, filters, rundir, extra_args=()):
         cmd += ['--harness', f]
     cmd += list(extra_args)
     lockf = open(os.path.join(WORK, 'build-%s.lock' % crate), 'w')
-    fcntl.flock(lockf, fcntl.LOCK_EX)
+    if not os.environ.get('VERIF_HAVE_BUILD_LOCK'):   # bin/test_seeded holds both build locks itself
+        fcntl.flock(lockf, fcntl.LOCK_EX)
     try:
         t0 = time.time()
         # Force recompilation of the harness-holding crate: Kani writes per-harness goto files
@@ -124,7 +126,8 @@ def build(crate, filters, rundir, extra_args=()):
             out.append(h)
         return out, time.time() - t0
     finally:
-        fcntl.flock(lockf, fcntl.LOCK_UN)
+        if not os.environ.get('VERIF_HAVE_BUILD_LOCK'):
+            fcntl.flock(lockf, fcntl.LOCK_UN)
         lockf.close()
 
 
